@@ -44,7 +44,7 @@ RootB == [EmptyNode EXCEPT !.d = ("x" :> LPrim("s", "1", "x")), !.dm = TRUE]
 \* C12 core: path-addressed reads/writes/removals, no merges
 NamesCore == {Nm(<<Seg("a")>>), Nm(<<Seg("b")>>), Nm(<<Seg("a"), Seg("b")>>), Nm(<<Seg("a"), SegI("0", 0)>>),
               Nm(<<SegI("1", 1)>>), Nm(<<>>), NmNoSep("c.d")}
-IdxsCore  == {-1, 0, 2}
+IdxsCore  == {-1, 0, 2, 2000}          \* 2000: beyond the default MaxIdx (1024)
 ValsCore  == {[ty |-> "s", v |-> "2"]}
 \* the sweep also READS the two confusable spellings: the path c -> d (while "c.d" exists as one literal name, written
 \* without a separator) and the literal name "a.b" (while the path a -> b exists); neither is ever written, so no
